@@ -158,6 +158,11 @@ def build(desc):
     from bluebonnet.flow import FlowProperties, IdealReservoir, SinglePhaseReservoir
 
     time = make_time(desc["grid"])
+    if desc["grid"].get("integer"):
+        # an integer-typed grid (np.arange(n) is the usual way of counting days)
+        time = np.arange(desc["grid"]["nt"], dtype="i8") * int(max(1, round(desc["grid"]["t_end"])))
+    if desc["cls"] == "twophase":
+        return _build_twophase(desc, time)
     if desc["cls"] == "ideal":
         res = IdealReservoir(desc["nx"], desc["p_f"], desc["p_i"], None)
         return res, time, None, None, None
@@ -174,7 +179,31 @@ def build(desc):
     res = SinglePhaseReservoir(desc["nx"], desc["p_f"], desc["p_i"], fluid)
     lo, _ = tables.pressure_range(tab)
     sched = make_schedule(desc.get("schedule"), len(time), desc["p_f"], desc["p_i"], lo)
+    if sched is not None and desc.get("sched_as") == "list":
+        sched = [float(v) for v in sched]
+    elif sched is not None and desc.get("sched_as") == "series":
+        import pandas as pd
+
+        sched = pd.Series(sched)
     return res, time, sched, fluid, tab
+
+
+def _build_twophase(desc, time):
+    """TwoPhaseReservoir on a FlowPropertiesTwoPhase.from_table fluid (user-diffusivity branch)."""
+    import pandas as pd
+
+    from bluebonnet.flow import FlowPropertiesTwoPhase, RelPermParams, TwoPhaseReservoir, relative_permeabilities_twophase
+
+    t = desc["table"]
+    tab = tables.multiphase_from_desc(t)
+    cols = {k: np.asarray(tab[k], dtype=float) for k in tables.MP_COLS}
+    Sw = t["Sw"]
+    df_kr = relative_permeabilities_twophase(RelPermParams(2.0, 2.0, 2.0, 0.05, Sw + 0.05, 0.02, 0.9, 0.5, 0.8), Sw)
+    with warnings.catch_warnings(), np.errstate(all="ignore"):
+        warnings.simplefilter("ignore")
+        fluid = FlowPropertiesTwoPhase.from_table(pd.DataFrame(cols), df_kr, {"rho_o0": 50.0, "rho_g0": 0.06, "rho_w0": 62.4}, 0.1, Sw, desc["p_i"])
+    res = TwoPhaseReservoir(desc["nx"], desc["p_f"], desc["p_i"], fluid, Sw)
+    return res, time, None, fluid, tab
 
 
 def simulate(res, time, sched):
@@ -191,11 +220,11 @@ def frac_face_values(desc, res, fluid, time, sched):
     if desc["cls"] == "ideal":
         return 1.0, np.zeros(len(time))
     m_i = float(fluid.m_i)
-    p = sched if sched is not None else np.full(len(time), desc["p_f"])
+    p = np.asarray(sched, dtype=float) if sched is not None else np.full(len(time), desc["p_f"])
     return m_i, np.asarray(fluid.m_scaled_func(p), dtype=float)
 
 
-def random_sim_desc(rng, tier, single_share=0.75, consistent_only=False, schedules=True, nx_choices=(3, 4, 5, 10, 30, 80, 200, 400), families=GRID_FAMILIES):
+def random_sim_desc(rng, tier, single_share=0.75, consistent_only=False, schedules=True, nx_choices=(3, 4, 5, 10, 30, 80, 200, 400), families=GRID_FAMILIES, twophase_share=0.0):
     cls = "single" if rng.random() < single_share else "ideal"
     nx = int(rng.choice(nx_choices))
     fam = str(rng.choice(families))
@@ -218,8 +247,24 @@ def random_sim_desc(rng, tier, single_share=0.75, consistent_only=False, schedul
     d["alpha_branch"] = bool(rng.random() < 0.15)
     if schedules and rng.random() < 0.4:
         d["schedule"] = {"kind": str(rng.choice(["constant", "steps-down", "random-walk"])), "seed": int(rng.integers(0, 2**31)), "n_steps": int(rng.integers(2, 5))}
+        d["sched_as"] = str(rng.choice(["ndarray", "ndarray", "list", "series"]))
     else:
         d["schedule"] = None
+    if fam == "uniform" and rng.random() < 0.3:
+        d["grid"]["integer"] = True
+    if twophase_share and rng.random() < twophase_share:
+        # the two-phase class on a from_table fluid (multiphase diffusivity, user-alpha branch)
+        Sw = float(rng.choice([0.1, 0.2]))
+        if rng.random() < 0.5:
+            t = {"kind": "shipped", "Sw": 0.1}
+            Sw = 0.1
+        else:
+            t = {"kind": "synthetic", "family": str(rng.choice(["linear", "kinked"])), "prm": [float(v) for v in rng.random(3)], "n": int(rng.choice([30, 200])), "p_lo": 50.0, "p_hi": 9000.0, "grid": str(rng.choice(["uniform", "nonuniform"])), "seed": int(rng.integers(0, 10**6)), "Sw": Sw}
+        tab2 = tables.multiphase_from_desc(t)
+        P = np.asarray(tab2["pressure"], dtype=float)
+        ki = int(len(P) * (0.5 + 0.45 * rng.random()))
+        d.update({"cls": "twophase", "table": t, "p_i": float(P[ki]), "p_f": float(P[max(2, int(ki * ratio * 0.9))]), "schedule": None, "alpha_branch": False})
+        d.pop("sched_as", None)
     return d
 
 
@@ -243,7 +288,7 @@ def step_residuals(res, cls, time, pp, m_i, m_f, tol=1e-11, check_row0=False):
     new = pp[1:]
     if cls == "ideal":
         b = prev.copy()
-        a = np.ones_like(b)
+        a = np.ones_like(b)  # ("twophase" is a SinglePhaseReservoir subclass: same scheme as "single")
     else:
         b = np.minimum(prev, m_i)
         b0 = b.copy()
